@@ -1666,6 +1666,26 @@ def r9_end_of_input_is_classified_as_such(ctx):
             ctx.ob("C16.R9", f"{RD}::{fname}::eof_error under `{P.un(test)[:50] if test is not None else 'no test'}`", RD, r.lineno, ok,
                    "" if ok else "an unexpected-end-of-input error is raised under a test that is not an end-of-input test: complete but malformed text is reported as incomplete, and the REPL keeps waiting for more",
                    witness="#b \"é\" at the REPL: the prompt inserts a newline for ever")
+    # (c) UnexpectedEOFError is a SyntaxError: a handler that catches SyntaxError (or wider) around a
+    # call of a reader and answers with a plain syntax error re-labels "incomplete" as "malformed",
+    # unless an earlier handler of the same try lets UnexpectedEOFError through
+    for fname, fn in sorted(fns.items()):
+        for t in [x for x in ast.walk(fn) if isinstance(x, ast.Try)]:
+            reads = any(isinstance(c.func, ast.Name) and c.func.id in fns and c.func.id.startswith("_read") for s in t.body for c in P.calls(s))
+            if not reads:
+                continue
+            passed = False
+            for h in t.handlers:
+                names = ["BaseException"] if h.type is None else [P.un(x).split(".")[-1] for x in (h.type.elts if isinstance(h.type, ast.Tuple) else [h.type])]
+                if "UnexpectedEOFError" in names and any(isinstance(x, ast.Raise) and (x.exc is None or "eof_error" in P.un(x.exc) or P.un(x.exc) == (h.name or "")) for s in h.body for x in ast.walk(s)):
+                    passed = True
+                    continue
+                wide = any(n in ("SyntaxError", "Exception", "BaseException") for n in names)
+                relabels = any(isinstance(x, ast.Raise) and x.exc is not None and "syntax_error" in P.un(x.exc) for s in h.body for x in ast.walk(s))
+                if wide and relabels:
+                    ctx.ob("C16.R9", f"{RD}::{fname}::`except {', '.join(names)}` around a reader lets UnexpectedEOFError through", RD, h.lineno, passed,
+                           "" if passed else f"the handler catches {', '.join(names)} -- which includes UnexpectedEOFError -- around a call of a reader and raises a plain syntax error: input that ends inside the nested form is reported as malformed, and the REPL rejects what it should keep reading",
+                           witness="(read-string \"#f \\\"{(a\") => SyntaxError instead of UnexpectedEOFError")
     ctx.note(f"C16.R9: {n_runs} abstract runs (function x characters left)")
 
 
